@@ -153,6 +153,9 @@ W = ('var', '$w')
 ET = ('$et',)
 
 
+ENUM_VARIANTS = {}     # enum path -> [variant paths]; filled by Engine.__init__ from the ADT table
+
+
 def closure_lits(known):
     """facts implied by a set of literals"""
     out = set(known)
@@ -161,6 +164,15 @@ def closure_lits(known):
         changed = False
         new = []
         for (pol, a) in list(out):
+            if pol and a[0] == 'cmp' and a[1] == 'Eq':
+                # x == Enum::A  implies  x != Enum::B for every other variant B
+                for x, y in ((a[2], a[3]), (a[3], a[2])):
+                    if isinstance(y, tuple) and y[:1] == ('const',) and isinstance(y[1], str) and '::' in y[1] and x[:1] != ('const',):
+                        en = y[1].rsplit('::', 1)[0]
+                        for other in ENUM_VARIANTS.get(en, []):
+                            if other != y[1]:
+                                l2, r2 = sorted([x, ('const', other)], key=str)
+                                new.append((False, ('cmp', 'Eq', l2, r2)))
             if pol and a[0] == 'some' and a[1][0] in ('vdata_opt', 'ty_opt'):
                 new.append((True, ('exists', a[1][1])))
             if pol and a[0] == 'some' and a[1][0] == 'etype_opt':
@@ -182,6 +194,15 @@ def closure_lits(known):
                         new.append((True, ('et', y)))
                     if x[0] == 'len' and y[0] == 'lit':
                         new.append((True, ('len', x[1], y[1])))
+            if pol and a[0] == 'cmp' and a[1] == 'Eq' and a[2][0] == 'ty' and a[3][0] == 'ty':
+                for x, y in ((a[2], a[3]), (a[3], a[2])):
+                    for (p2, b) in list(out):
+                        if p2 and b[0] == 'ty' and b[1] == x[1]:
+                            new.append((True, ('ty', y[1], b[2])))
+                        if p2 and b[0] == 'cmp' and b[1] == 'Eq' and x in (b[2], b[3]):
+                            other = b[3] if b[2] == x else b[2]
+                            if other[0] == 'const':
+                                new.append((True, ('cmp', 'Eq') + tuple(sorted([y, other], key=str))))
             if pol and a[0] == 'cmp' and a[1] == 'Ne':
                 l, r = a[2], a[3]
                 if l[0] == 'var' and r[0] == 'var':
@@ -218,6 +239,9 @@ class Engine:
     def __init__(self, facts):
         self.facts = facts
         self.fns = facts['fns']
+        for path, adt in (facts.get('adts') or {}).items():
+            if adt.get('kind') == 'enum' and path not in ENUM_VARIANTS:
+                ENUM_VARIANTS[path] = ['%s::%s' % (path, v['name']) for v in adt['variants']]
 
     # ------------------------------------------------------------ terms
     def term(self, e, cx, known):
@@ -785,3 +809,65 @@ def w_zh_or_b(fs):
 
 def w_z(fs):
     return has(fs, ('ty', W, Z))
+
+
+# ---------------------------------------------------------------- how much of an accepting disjunct the engine understood
+
+_KNOWN_TERMS = {'ty', 'ty_opt', 'etype', 'etype_opt', 'deg', 'phase', 'vars', 'var', 'const', 'lit', 'Some', '$et', 'inc', 'nbrs', 'first_nbr', 'first_nbr_opt',
+                'derived', 'vdata', 'vdata_opt', 'inputs', 'outputs', 'num_vertices', 'num_edges', 'qubit', 'row'}
+
+
+def _term_known(t):
+    if not isinstance(t, tuple) or not t:
+        return True
+    h = t[0]
+    if h in ('unk', 'call', 'm', 'field', 'gl', 'elem', 'proj', 'unwrap', 'node'):
+        return False
+    if h == 'idx':
+        return False
+    if h in ('tuple', 'array'):
+        return all(_term_known(x) for x in t[1])
+    if h == 'len':
+        return _term_known(t[1])
+    if h == 'arith':
+        return _term_known(t[2]) and _term_known(t[3])
+    if h in _KNOWN_TERMS:
+        return all(_term_known(x) for x in t[1:] if isinstance(x, tuple))
+    return False
+
+
+def _formula_atoms(f):
+    if not isinstance(f, tuple) or not f:
+        return
+    if f[0] == 'lit':
+        yield f[2]
+    elif f[0] in ('and', 'or'):
+        for x in f[1]:
+            yield from _formula_atoms(x)
+
+
+def atom_known(a):
+    """does the engine know what this atom means (so that its absence / presence can be held against a contract)?"""
+    h = a[0]
+    if h == 'boolvar':
+        return isinstance(a[1], tuple) and a[1][:1] == ('lit',)       # a boolean literal flowing through a local
+    if h in ('opaque', 'opaque_pat', 'pat', 'contains_elem'):
+        return False
+    if h == 'cmp':
+        if a[2] == a[3]:
+            return True                                               # both sides lost to the same opaque term: a tautology as far as the engine can see
+        return _term_known(a[2]) and _term_known(a[3])
+    if h == 'some':
+        return _term_known(a[1])
+    if h in ('forall', 'exists_q'):
+        if not (isinstance(a[1], tuple) and a[1] and a[1][0] in ('inc', 'nbrs')):
+            return False
+        return all(atom_known(x) for x in _formula_atoms(a[2]))
+    if h in ('phase', 'vars_empty', 'connected', 'contains', 'exists', 'adj', 'ne', 'ty', 'etype', 'etype_not', 'deg', 'degGt', 'degGe', 'degLt', 'degLe', 'et', 'len'):
+        return all(_term_known(x) for x in a[1:] if isinstance(x, tuple))
+    return False
+
+
+def foreign_atoms(disjunct):
+    """atoms of an accepting disjunct the engine could not interpret: a fact the contract asks for may be hidden in them"""
+    return [a for (_pol, a) in disjunct if not atom_known(a)]
